@@ -131,7 +131,7 @@ func (self *Fork) partialVdrKill() (*VDRKillReport, bool) {
 	// Refuse to remove anything across a symlink.  Node.vdrKill checks this
 	// for the passes it starts, but the fork also gets here directly from its
 	// own split/join/complete transitions.
-	if self.node.vdrAcrossSymlink() {
+	if self.vdrAcrossSymlink() {
 		return nil, true
 	}
 	if state := self.getState(); state.IsFailed() {
@@ -1079,6 +1079,37 @@ func (self *Node) vdrKill() (*VDRKillReport, bool) {
 func (self *Node) vdrAcrossSymlink() bool {
 	symlink, _ := self.vdrCheckSymlink()
 	return symlink != ""
+}
+
+// True if any directory on the way to this fork's files is a symlink: the
+// directory of its node or of a pipeline above it, the fork's own directory,
+// or the directory, files directory or temp directory of one of its jobs.
+// What lies behind such a link is outside of the pipestance directory.
+func (self *Fork) vdrAcrossSymlink() bool {
+	if self.node.vdrAcrossSymlink() {
+		return true
+	}
+	isLink := func(p string) bool {
+		if p == "" {
+			return false
+		}
+		info, err := os.Lstat(p)
+		return err == nil && info.Mode()&os.ModeSymlink != 0
+	}
+	if isLink(self.path) {
+		return true
+	}
+	mds := make([]*Metadata, 0, 2+len(self.chunks))
+	mds = append(mds, self.split_metadata, self.join_metadata)
+	for _, chunk := range self.chunks {
+		mds = append(mds, chunk.metadata)
+	}
+	for _, md := range mds {
+		if md != nil && (isLink(md.path) || isLink(md.curFilesPath) || isLink(md.TempDir())) {
+			return true
+		}
+	}
+	return false
 }
 
 type StorageEvent struct {
